@@ -233,9 +233,9 @@ theorem qSignTraceDot_eq (W0 W1 : RMat n) (s0 s1 d0 d1 γ : ℚ) (h0 : Symm W0) 
   rw [qTraceDotRaw_eq, qTraceDotRaw_eq, aggUpper_eq W0 h0, aggUpper_eq W1 h1, ← Qobj_Bpair, Qobj_Bpair_agg]
   rfl
 
-/-- a level of `modularity_louvain_und_sign`: the sentinel `(singletons, 0)` or a genuine level -/
+/-- a level of `modularity_louvain_und_sign`: reported `q` = objective of its partition, at least that of the singletons start -/
 def SignLevelOK (B0 : RMat n) (p : Lab n × ℚ) : Prop :=
-  p = (idLab n, 0) ∨ (p.2 = Qobj B0 (labOf p.1) ∧ Qobj B0 (id : Fin n → Fin n) ≤ p.2)
+  p.2 = Qobj B0 (labOf p.1) ∧ Qobj B0 (id : Fin n → Fin n) ≤ p.2
 
 structure SLvInv (W0o W1o : RMat n) (s0 s1 d0 d1 γ : ℚ) (W0 W1 : RMat n) (L : LvSt n) : Prop where
   symm0 : Symm W0
@@ -249,7 +249,11 @@ theorem louvainSignLoop_spec (W0o W1o : RMat n) (s0 s1 d0 d1 γ : ℚ) :
     ∀ (fuel : ℕ) (W0 W1 : RMat n) (L L' : LvSt n) (qcur : ℚ) (ds rest : List ℕ),
       SLvInv W0o W1o s0 s1 d0 d1 γ W0 W1 L →
       louvainSignLoop s0 s1 d0 d1 γ fuel W0 W1 L qcur ds = .ok (L', rest) →
-      ∀ p ∈ L'.acc, SignLevelOK (Bpair W0o W1o s0 s1 d0 d1 γ) p := by
+      (∀ p ∈ L'.acc, SignLevelOK (Bpair W0o W1o s0 s1 d0 d1 γ) p) ∧
+      ∃ ext, L'.acc = ext ++ L.acc ∧
+        (∀ p ∈ ext, p.2 = Qobj (Bpair W0o W1o s0 s1 d0 d1 γ) (labOf p.1) ∧
+          Qobj (Bpair W0o W1o s0 s1 d0 d1 γ) (id : Fin n → Fin n) ≤ p.2) ∧
+        (L'.starved = none → thr < qcur - L.qprev → ext ≠ []) := by
   intro fuel
   induction fuel with
   | zero => intro W0 W1 L L' qcur ds rest _ h; simp [louvainSignLoop] at h
@@ -267,7 +271,9 @@ theorem louvainSignLoop_spec (W0o W1o : RMat n) (s0 s1 d0 d1 γ : ℚ) :
         by_cases hst : x.starved.isSome = true
         · simp only [hst, if_true] at h
           cases h
-          exact hL.ok
+          refine ⟨hL.ok, [], rfl, by simp, fun hn => ?_⟩
+          simp only at hn
+          rw [hn] at hst; simp at hst
         · simp only [hst] at h
           obtain ⟨m', hm', _⟩ := toLab_ok (labFn x.m)
           simp only [hm'] at h
@@ -288,7 +294,18 @@ theorem louvainSignLoop_spec (W0o W1o : RMat n) (s0 s1 d0 d1 γ : ℚ) :
             have := hL.agg id
             simp only [id_eq] at this
             rw [← this, labOf_compose, ← hL.agg]; exact hmono'
-          refine ih _ _ _ _ _ _ _ ?_ h
+          have hrec : SLvInv W0o W1o s0 s1 d0 d1 γ (aggUpper W0 m') (aggUpper W1 m')
+              { nh := nextSize m' L.nh, ci := compose L.ci m', qprev := qcur,
+                acc := (compose L.ci m', qSignTraceDot (aggUpper W0 m') (aggUpper W1 m') s0 s1 d0 d1 γ) :: L.acc,
+                moves := L.moves + x.moves, ties := L.ties + x.ties, g := x.g } := ?_
+          · obtain ⟨h1, ext, he, hg, _⟩ := ih _ _ _ _ _ _ _ hrec h
+            refine ⟨h1, ext ++ [(compose L.ci m', qSignTraceDot (aggUpper W0 m') (aggUpper W1 m') s0 s1 d0 d1 γ)],
+              by rw [he]; simp, ?_, fun _ _ => by simp⟩
+            intro p hp'
+            rcases List.mem_append.mp hp' with h' | h'
+            · exact hg p h'
+            · simp only [List.mem_singleton] at h'; subst h'
+              exact ⟨hq, hq ▸ le_trans hL.start hprev_le⟩
           refine ⟨?_, ?_, ?_, ?_, ?_⟩
           · rw [aggUpper_eq W0 hL.symm0]; exact aggFull_symm W0 hL.symm0 m'
           · rw [aggUpper_eq W1 hL.symm1]; exact aggFull_symm W1 hL.symm1 m'
@@ -298,20 +315,20 @@ theorem louvainSignLoop_spec (W0o W1o : RMat n) (s0 s1 d0 d1 γ : ℚ) :
           · exact le_trans hL.start hprev_le
           · intro p hp'
             rcases List.mem_cons.mp hp' with rfl | hp'
-            · right
-              exact ⟨hq, hq ▸ le_trans hL.start hprev_le⟩
+            · exact ⟨hq, hq ▸ le_trans hL.start hprev_le⟩
             · exact hL.ok p hp'
     · cases h
-      exact hL.ok
+      exact ⟨hL.ok, [], rfl, by simp, fun _ hgt => absurd hgt hgo⟩
 
 /-- **modularity_louvain_und_sign: C02 + C07 for the model.** For symmetric signed `W`, every `qtype`,
 every `γ` and every sequence of visiting orders, every level the routine computes (it returns the last)
 reports exactly the signed modularity of its partition, which is at least that of the all-singletons
-start.  The first entry of `out.levels` is the sentinel `(singletons, 0)`. -/
+start; there is at least one level unless the draw list ran out (the placeholders `q = [-1, 0]` only drive the loop). -/
 theorem louvainSign_spec (t : QType) (W : RMat n) (γ : ℚ) (ds : List ℕ) (out : Out n)
     (hW : Symm W) (h : louvainSign t W γ ds g0 = .ok out) :
-    ∀ p ∈ out.levels, p = (idLab n, 0) ∨
-      (p.2 = Qsign t W γ (labOf p.1) ∧ Qsign t W γ (id : Fin n → Fin n) ≤ Qsign t W γ (labOf p.1)) := by
+    (∀ p ∈ out.levels,
+      p.2 = Qsign t W γ (labOf p.1) ∧ Qsign t W γ (id : Fin n → Fin n) ≤ Qsign t W γ (labOf p.1)) ∧
+    (out.starved = none → 1 ≤ out.levels.length) := by
   unfold louvainSign at h
   simp only [bind, Except.bind, pure, Except.pure] at h
   generalize hl : louvainSignLoop _ _ _ _ γ (ds.length + 1) _ _ _ 0 ds = res at h
@@ -324,18 +341,23 @@ theorem louvainSign_spec (t : QType) (W : RMat n) (γ : ℚ) (ds : List ℕ) (ou
     have hI : SLvInv (posPart W) (negPart W) (adj (total (posPart W))) (adj (total (negPart W)))
         (scales t (total (posPart W)) (total (negPart W))).1 (scales t (total (posPart W)) (total (negPart W))).2 γ
         (posPart W) (negPart W)
-        { nh := n, ci := idLab n, qprev := -1, acc := [(idLab n, 0)], moves := 0, ties := 0, g := g0 } := by
+        { nh := n, ci := idLab n, qprev := -1, acc := [], moves := 0, ties := 0, g := g0 } := by
       refine ⟨posPart_symm W hW, negPart_symm W hW, ?_, ?_, ?_⟩
       · intro c'; simp only [labOf_idLab, id_eq]
       · simp only [labOf_idLab]; exact le_rfl
-      · intro p hp; simp only [List.mem_singleton] at hp; exact Or.inl hp
-    have hres := louvainSignLoop_spec _ _ _ _ _ _ γ _ _ _ _ _ _ _ _ hI hl
-    intro p hp
-    rcases hres p (List.mem_reverse.mp hp) with h' | ⟨h1, h2⟩
-    · exact Or.inl h'
-    · right
+      · intro p hp; simp at hp
+    obtain ⟨_, ext, he, hg, hne⟩ := louvainSignLoop_spec _ _ _ _ _ _ γ _ _ _ _ _ _ _ _ hI hl
+    have hlev : L.acc = ext := by rw [he]; simp
+    refine ⟨?_, ?_⟩
+    · intro p hp
+      obtain ⟨h1, h2⟩ := hg p (hlev ▸ List.mem_reverse.mp hp)
       rw [Qsign_eq, Qsign_eq]
       exact ⟨h1, h1 ▸ h2⟩
+    · intro hst
+      simp only at hst
+      have := hne hst (by unfold thr; norm_num)
+      simp only [hlev, List.length_reverse]
+      exact List.length_pos_of_ne_nil this
 
 theorem rinv_eq (x : ℚ) : rinv x = x⁻¹ := by
   unfold rinv; split_ifs with h
